@@ -301,6 +301,7 @@ LIBRARY = [
     (b'A:C;Q\n', [1], b''),          # command form of a query-only node below A
     (b'S "a\'b"\n', [9], b''),
     (b'A:B;S "x\ny"\n', [0, 10], b''),   # a message that is continued by a later read (newline inside the string), path A kept meanwhile
+    (b'A:Q?;S "x\ny"\n', [4, 10], b'7\n'),   # an answered query in front of a payload newline: answered once (possibly before the message is complete)
 ]
 
 
@@ -393,10 +394,15 @@ class LibraryProcess:
             for t in ad.trace:
                 if t[0] in ('r', 'r!'):
                     want = b''
+                    upto = exp_out
                     for e, c in ends:
                         if e <= delivered:
                             want = c
-                    if written != want:
+                    for e, c in ends:
+                        if e > delivered:
+                            upto = c      # a message in progress (continued after a payload newline) may already have answered
+                            break
+                    if not (written.startswith(want) and upto.startswith(written)):
                         viol = f'asked for more input after {delivered} bytes with {written!r} written, but the complete messages so far answer {want!r}'
                         break
                     if unflushed:
@@ -475,11 +481,15 @@ def confirm_library(run, v):
             delivered, written, late = 0, b'', False
             for t in o.get('trace', []):
                 if t.startswith('r'):
-                    want = b''
+                    want, upto = b'', cum
                     for e, c in ends:
                         if e <= delivered:
                             want = c
-                    if written != want:
+                    for e, c in ends:
+                        if e > delivered:
+                            upto = c
+                            break
+                    if not (written.startswith(want) and upto.startswith(written)):
                         late = True
                     if '=' in t:
                         delivered += int(t.split('=')[1])
